@@ -5,9 +5,11 @@ import (
 	"encoding/hex"
 	"errors"
 	"fmt"
+	"net"
 	"reflect"
 	"regexp"
 	"strings"
+	"time"
 
 	"github.com/miekg/dns"
 	"pgregory.net/rapid"
@@ -133,6 +135,8 @@ func wireOf(rr dns.RR) ([]byte, error) {
 	return w, nil
 }
 
+var otherZones = []*time.Location{time.FixedZone("east", 5*3600+1800), time.FixedZone("west", -8*3600)}
+
 func checkRec(c recCase) error {
 	r := c.R
 	w, err := wm.EncodeRR(r)
@@ -149,6 +153,16 @@ func checkRec(c recCase) error {
 	text := born.String()
 	if len(rd) > 0 && needsCare(r) {
 		pbt.Sample("type:"+tn, short(text))
+	}
+	// the text does not depend on where the process runs (master-file times are UTC)
+	saved := time.Local
+	for _, z := range otherZones {
+		time.Local = z
+		other := born.String()
+		time.Local = saved
+		if other != text {
+			return pbt.Errf("String() of a %s record depends on the local time zone of the process (%s):\n  %s\n  %s", tn, z, short(text), short(other))
+		}
 	}
 	// (1) re-readable and faithful
 	r2, err := parse(text)
@@ -189,6 +203,16 @@ func checkRec(c recCase) error {
 		{"CLASSnnn", fmt.Sprintf("%s\t%s\tCLASS%d\t%s\t%s", fields[0], fields[1], r.Class, fields[3], rdataText)},
 		{"mnemonic+generic-rdata", fmt.Sprintf("%s\t%s\t%s\t%s\t%s", fields[0], fields[1], fields[2], fields[3], generic)},
 		{"all-numeric", fmt.Sprintf("%s %s CLASS%d TYPE%d %s", fields[0], fields[1], r.Class, r.Type, generic)},
+	}
+	// the generic form as the library itself writes it (conversion into a value that was used before)
+	if _, known := wm.Layout[r.Type]; known && !r.NoRdata && r.Type != wm.TOPT && r.Type != wm.TPrivate {
+		g := new(dns.RFC3597)
+		if err := g.ToRFC3597(&dns.A{Hdr: dns.RR_Header{Name: "prev.example.", Rrtype: dns.TypeA, Class: 1, Ttl: 9}, A: net.IP{192, 0, 2, 1}}); err == nil {
+			if err := g.ToRFC3597(born); err != nil {
+				return pbt.Errf("%s: ToRFC3597 fails: %v", tn, err)
+			}
+			alts = append(alts, struct{ name, text string }{"ToRFC3597().String()", g.String()})
+		}
 	}
 	for _, a := range alts {
 		ra, err := parse(a.text)
